@@ -55,6 +55,7 @@ func toks(out []string, nl string) []devsim.Token {
 }
 
 type step struct {
+	cont  bool  // a line of a multi-line command but the last: echoed, nothing else happens
 	d     *Desc // the operation the step belongs to
 	line  string
 	ev    int // index into Events, -1 for a plain command
@@ -67,15 +68,22 @@ type step struct {
 func dialogueDevice(ds ...*Desc) *simDev {
 	d := ds[0] // prompt and end of line are session-wide
 	var steps []step
+	addCmd := func(o *Desc, c *Cmd) {
+		parts := strings.Split(c.Text, "\n")
+		for _, p := range parts[:len(parts)-1] {
+			steps = append(steps, step{d: o, line: p, ev: -1, cmd: c, cont: true})
+		}
+		steps = append(steps, step{d: o, line: parts[len(parts)-1], ev: -1, cmd: c})
+	}
 	for _, o := range ds {
 		for i := range o.Warm {
-			steps = append(steps, step{d: o, line: o.Warm[i].Text, ev: -1, cmd: &o.Warm[i]})
+			addCmd(o, &o.Warm[i])
 		}
 		for k := 0; k < o.Sent(); k++ {
 			steps = append(steps, step{d: o, line: o.Events[k].Input, ev: k, hides: o.Events[k].Hidden})
 		}
 		for i := range o.Post {
-			steps = append(steps, step{d: o, line: o.Post[i].Text, ev: -1, cmd: &o.Post[i]})
+			addCmd(o, &o.Post[i])
 		}
 	}
 	sd := &simDev{}
@@ -96,6 +104,9 @@ func dialogueDevice(ds ...*Desc) *simDev {
 		nextHidden := idx < len(steps) && steps[idx].hides
 		var r devsim.Reply
 		question := d.Prompt
+		if st.cont {
+			return devsim.Reply{NoPrompt: true}
+		}
 		if st.cmd != nil {
 			r.Out = toks(st.cmd.Out, d.NL)
 			sd.pendingHold = st.cmd.Hold
@@ -161,6 +172,8 @@ type runner struct {
 	// swallows stale bytes
 	lastMatch int
 	interim   []*regexp.Regexp // the slice passed with WithInterimPromptPattern in the current operation
+	// sharedEvs: event objects owned by the caller and re-used across sessions (kind shared)
+	sharedEvs []*channel.SendInteractiveEvent
 	dev       *simDev
 	gd        *generic.Driver
 	nd        *network.Driver
@@ -223,6 +236,9 @@ func (r *runner) open(extra ...util.Option) *mon.Result {
 		options.WithReturnChar(d.RC),
 		options.WithReadDelay(time.Duration(d.ReadDelay) * time.Microsecond),
 		options.WithTimeoutOps(to),
+	}
+	if d.PromptPat != "" {
+		opts = append(opts, options.WithPromptPattern(regexp.MustCompile(d.PromptPat)))
 	}
 	opts = append(opts, extra...)
 	var err error
@@ -351,6 +367,13 @@ func (r *runner) plain(c Cmd, where string) *mon.Result {
 	r.obs["plain_return_checks"]++
 	if log[ws[1]].Delivered < log[ws[1]].Generated {
 		r.obs["plain_return_before_echo_delivered"]++
+	}
+	if strings.Contains(c.Text, "\n") {
+		r.obs["multi_line_commands"]++
+		if r.d.Exact {
+			r.obs["multi_line_commands_exact_mode"]++
+		}
+		r.tag("multi-line-command")
 	}
 	if !c.Eager {
 		if rc.Delivered < echoEnd {
@@ -674,6 +697,9 @@ func (r *runner) runOp(d *Desc, callerComp []*regexp.Regexp) (v *mon.Result, non
 	if n > 0 {
 		opo := r.opOptions(d, callerComp)
 		evs, res, hidden := r.events(d)
+		if r.sharedEvs != nil {
+			evs = r.sharedEvs
+		}
 		from := len(r.conn.Log())
 		got, err := r.interactive(d, evs, opo)
 		deliveredAtReturn := r.conn.Delivered()
@@ -784,6 +810,54 @@ func RunDialogue(d Desc) mon.Result {
 		nontrivial = r.obs["plain_echo_in_several_reads"] > 0
 	}
 	return r.result(nontrivial)
+}
+
+// RunShared runs two sessions, one after the other, that are sent the same event objects; the
+// sessions differ in their prompt pattern.
+func RunShared(d Desc) mon.Result {
+	var shared []*channel.SendInteractiveEvent
+	for _, e := range d.Ops[0].Events {
+		shared = append(shared, &channel.SendInteractiveEvent{ChannelInput: e.Input, ChannelResponse: e.Resp, HideInput: e.Hidden})
+	}
+	obs := map[string]int64{}
+	tags := map[string]bool{}
+	var last *runner
+	for i := range d.Ops {
+		o := d.Ops[i]
+		r := newRunner(o)
+		r.dev = dialogueDevice(&o)
+		r.conn = devsim.NewConn(r.dev, devsim.Config{Seg: o.Seg, KeepData: true})
+		v := r.openDialogueSession(o)
+		if v == nil {
+			r.sharedEvs = shared
+			v, _ = r.runOp(&o, compPatterns(&o))
+			r.close()
+		}
+		r.conn.Abandon()
+		if v != nil {
+			which := "default prompt pattern"
+			if o.PromptPat != "" {
+				which = "prompt pattern " + o.PromptPat
+			}
+			v.Detail = fmt.Sprintf("session %d of 2 (%s), event objects shared between the sessions: %s", i+1, which, v.Detail)
+			return *v
+		}
+		for k, x := range r.obs {
+			obs[k] += x
+		}
+		for t := range r.tags {
+			tags[t] = true
+		}
+		last = r
+	}
+	obs["sessions_sharing_event_objects"] += 2
+	order := "default-then-strict"
+	if d.Ops[0].PromptPat != "" {
+		order = "strict-then-default"
+	}
+	tags["shared-events="+order] = true
+	last.obs, last.tags = obs, tags
+	return last.result(true)
 }
 
 // RunMulti runs a session of several interactive operations on one channel; the caller reuses one
